@@ -459,7 +459,7 @@ func (x *lblCtx) rlesOf(S []int) dvid.RLEs {
 		}
 	}
 	x.rng.Shuffle(len(rles), func(i, j int) { rles[i], rles[j] = rles[j], rles[i] })
-	return rles
+	return x.presentRLEs(rles, x.c.RLEPres) // broken into adjacent runs / single voxels when asked (calls_labels2.go)
 }
 
 func statsOf(m map[uint64]labels.SVSplitCount) []lg.Stat {
@@ -474,6 +474,18 @@ func statsOf(m map[uint64]labels.SVSplitCount) []lg.Stat {
 func allocator(start uint64) func() (uint64, error) {
 	next := start
 	return func() (uint64, error) {
+		next++
+		return next - 1, nil
+	}
+}
+
+func failingAllocator(start uint64, failAt int) func() (uint64, error) {
+	next, calls := start, 0
+	return func() (uint64, error) {
+		calls++
+		if calls >= failAt {
+			return 0, fmt.Errorf("verif: label allocation refused (call %d)", calls)
+		}
 		next++
 		return next - 1, nil
 	}
@@ -533,8 +545,15 @@ func (x *lblCtx) step(cur *labels.Block, curDec []uint64, st *lg.Step, last bool
 			x.fast(cur, op, res, &so)
 		}
 	case "splitsv":
+		key := x.bcoord.ToIZYXString()
+		if st.NoKey {
+			// the run-lengths belong to the neighbouring block: this block has no entry in op.Split
+			other := x.bcoord
+			other[0]++
+			key = other.ToIZYXString()
+		}
 		op := labels.SplitSupervoxelOp{Supervoxel: st.T, SplitSupervoxel: st.N, RemainSupervoxel: st.M[0],
-			Split: dvid.BlockRLEs{x.bcoord.ToIZYXString(): x.rlesOf(st.S)}}
+			Split: dvid.BlockRLEs{key: x.rlesOf(st.S)}}
 		res, so.Kept, so.Split, err = x.pb(cur, 0).SplitSupervoxel(op)
 	case "splitsvs":
 		m := map[uint64]labels.SVSplit{}
@@ -544,6 +563,19 @@ func (x *lblCtx) step(cur *labels.Block, curDec []uint64, st *lg.Step, last bool
 		res, err = x.pb(cur, 0).SplitSupervoxels(x.rlesOf(st.S), m)
 	case "dosplit":
 		rles := x.rlesOf(st.S)
+		if st.FailAt > 0 {
+			_, e1 := x.pb(cur, 0).SplitStats(rles, preMap(st.SVMap), failingAllocator(st.Fresh0, st.FailAt))
+			blk, _, e2 := x.pb(cur, 0).DoSplitWithStats(labels.SplitOp{RLEs: rles}, preMap(st.SVMap), failingAllocator(st.Fresh0, st.FailAt))
+			so.AllocFailed = e1 != nil && e2 != nil && blk == nil
+			if !so.AllocFailed {
+				so.Err = fmt.Sprintf("allocator failing at call %d: SplitStats error %v, DoSplitWithStats error %v, block returned %v", st.FailAt, e1, e2, blk != nil)
+				return nil, so
+			}
+			so.Nil = true
+			dec := decode(cur)
+			so.Decoded = x.project(dec)
+			return cur, so
+		}
 		only, err2 := x.pb(cur, 0).SplitStats(rles, preMap(st.SVMap), allocator(st.Fresh0))
 		if err2 != nil {
 			so.Err = "SplitStats: " + err2.Error()
@@ -675,6 +707,7 @@ func runCase(c *lg.Case) (obs lg.CaseObs) {
 		for _, off := range c.SubvolOffs {
 			obs.Subvols = append(obs.Subvols, x.subvol(arr, off))
 		}
+		x.growth(b, dec, arr, &obs) // bounded sparse views, ReplaceLabel probes, zero-count sub-blocks, outside points (calls_labels2.go)
 	}
 	cur, curDec := b, dec
 	for i := range c.Steps {
